@@ -386,6 +386,7 @@ type Contract struct {
 	Line     int
 	Induct   string // lemma: induction variable
 	UsesLemmas []*SCall
+	Witness  []*Clause // named spec expressions read back from a counter-model for replay
 	Notes    []string
 }
 
@@ -650,6 +651,16 @@ func ReadContractFile(path, pkgPath string) ([]*Contract, error) {
 				tgt.Opaque = true
 			case "replay":
 				tgt.Replay = rest
+			case "witness":
+				j := strings.Index(rest, "=")
+				if j < 0 {
+					return nil, fmt.Errorf("%s:%d: witness needs name = expr", path, l.n)
+				}
+				e, err := ParseSpecExpr(strings.TrimSpace(rest[j+1:]))
+				if err != nil {
+					return nil, fmt.Errorf("%s:%d: %v", path, l.n, err)
+				}
+				tgt.Witness = append(tgt.Witness, &Clause{Kind: "witness", Label: strings.TrimSpace(rest[:j]), Src: rest[j+1:], Expr: e, Line: l.n, File: path})
 			case "induction":
 				tgt.Induct = rest
 			case "uses":
